@@ -1,7 +1,6 @@
 package simrt
 
 import (
-	"fmt"
 	"hash/fnv"
 	"reflect"
 	"sync"
@@ -28,7 +27,7 @@ type simPool struct {
 	p     *sync.Pool
 	Name  string
 	free  []any
-	objs  map[any]*objInfo
+	objs  ptrTable
 	Live  int
 	HWM   int
 	Gets  int
@@ -51,7 +50,7 @@ type PoolViolation struct {
 type PoolSet struct {
 	r      *Run
 	mu     sync.Mutex
-	pools  map[*sync.Pool]*simPool
+	pools  []*simPool // looked up by linear search: a dozen pools at most
 	list   []*simPool
 	Policy int
 	Viol   []PoolViolation
@@ -59,24 +58,35 @@ type PoolSet struct {
 }
 
 func newPoolSet(r *Run) *PoolSet {
-	return &PoolSet{r: r, pools: map[*sync.Pool]*simPool{}, owned: map[any]string{}}
+	return &PoolSet{r: r, owned: map[any]string{}}
 }
 
+//go:norace
 func (ps *PoolSet) pool(p *sync.Pool) *simPool {
-	sp := ps.pools[p]
-	if sp == nil {
-		sp = &simPool{p: p, objs: map[any]*objInfo{}, order: len(ps.list)}
-		ps.pools[p] = sp
-		ps.list = append(ps.list, sp)
+	for _, sp := range ps.list {
+		if sp.p == p {
+			return sp
+		}
 	}
+	sp := &simPool{p: p, order: len(ps.list)}
+	ps.list = append(ps.list, sp)
 	return sp
 }
 
+func objKey(x any) uintptr {
+	v := reflect.ValueOf(x)
+	if v.Kind() == reflect.Pointer {
+		return v.Pointer()
+	}
+	return 0
+}
+
+//go:norace
 func (ps *PoolSet) gname() string {
 	gid := goid()
 	ps.r.mu.Lock()
 	defer ps.r.mu.Unlock()
-	if g := ps.r.byGoid[gid]; g != nil {
+	if g := ps.r.byGoid.get(gid); g != nil {
 		return g.Name
 	}
 	return "?"
@@ -89,6 +99,17 @@ func PoolGet(p *sync.Pool, site string) any {
 		return p.Get()
 	}
 	ps := r.Pools
+	raceDisable()
+	x := poolGetLocked(ps, p, site)
+	raceEnable()
+	if x != nil {
+		raceAcquireObj(x) // what sync.Pool gives: the Put of this very object happens before its Get
+	}
+	return x
+}
+
+//go:norace
+func poolGetLocked(ps *PoolSet, p *sync.Pool, site string) any {
 	gn := ps.gname()
 	ps.mu.Lock()
 	defer ps.mu.Unlock()
@@ -103,7 +124,7 @@ func PoolGet(p *sync.Pool, site string) any {
 			x = sp.free[0]
 			sp.free = sp.free[1:]
 		}
-		oi := sp.objs[x]
+		oi := sp.objs.get(objKey(x))
 		if h := shallowHash(x); h != oi.hash {
 			ps.Viol = append(ps.Viol, PoolViolation{Kind: "write-after-release", Pool: sp.Name, Site: site, PrevSite: oi.putSite, G: gn,
 				Detail: "object changed between Put and the next Get"})
@@ -120,9 +141,9 @@ func PoolGet(p *sync.Pool, site string) any {
 		x = p.New()
 		sp.News++
 		if sp.Name == "" {
-			sp.Name = fmt.Sprintf("%T", x)
+			sp.Name = reflect.TypeOf(x).String()
 		}
-		sp.objs[x] = &objInfo{getSite: site}
+		sp.objs.put(objKey(x), x, &objInfo{getSite: site})
 	}
 	sp.Live++
 	if sp.Live > sp.HWM {
@@ -132,6 +153,7 @@ func PoolGet(p *sync.Pool, site string) any {
 }
 
 // PoolPut replaces P.Put(x).
+//go:norace
 func PoolPut(p *sync.Pool, x any, site string) {
 	r := cur.Load()
 	if r == nil {
@@ -141,6 +163,9 @@ func PoolPut(p *sync.Pool, x any, site string) {
 	if x == nil {
 		return
 	}
+	raceReleaseObj(x)
+	raceDisable()
+	defer raceEnable()
 	ps := r.Pools
 	gn := ps.gname()
 	ps.mu.Lock()
@@ -148,13 +173,13 @@ func PoolPut(p *sync.Pool, x any, site string) {
 	sp := ps.pool(p)
 	sp.Puts++
 	if sp.Name == "" {
-		sp.Name = fmt.Sprintf("%T", x)
+		sp.Name = reflect.TypeOf(x).String()
 	}
-	oi := sp.objs[x]
+	oi := sp.objs.get(objKey(x))
 	if oi == nil {
 		// object not obtained from the pool in this run (allocated directly): adopt it
 		oi = &objInfo{}
-		sp.objs[x] = oi
+		sp.objs.put(objKey(x), x, oi)
 		sp.Live++
 	}
 	if oi.free {
@@ -174,17 +199,20 @@ func PoolPut(p *sync.Pool, x any, site string) {
 }
 
 // Own registers that harness code (a handler) is using x until Disown.
+//go:norace
 func Own(x any, who string) {
 	r := cur.Load()
 	if r == nil {
 		return
 	}
+	raceDisable()
+	defer raceEnable()
 	ps := r.Pools
 	ps.mu.Lock()
 	ps.owned[x] = who
 	// already in a pool's free list? then it was recycled under the owner's feet earlier
 	for _, sp := range ps.list {
-		if oi := sp.objs[x]; oi != nil && oi.free {
+		if oi := sp.objs.get(objKey(x)); oi != nil && oi.free {
 			ps.Viol = append(ps.Viol, PoolViolation{Kind: "recycled-while-owned", Pool: sp.Name, Site: "own", PrevSite: oi.putSite, G: who, Detail: "object was already released when its owner got it"})
 		}
 	}
@@ -192,11 +220,14 @@ func Own(x any, who string) {
 }
 
 // Disown ends the ownership registered by Own.
+//go:norace
 func Disown(x any) {
 	r := cur.Load()
 	if r == nil {
 		return
 	}
+	raceDisable()
+	defer raceEnable()
 	ps := r.Pools
 	ps.mu.Lock()
 	delete(ps.owned, x)
@@ -204,6 +235,7 @@ func Disown(x any) {
 }
 
 // CheckFree re-hashes every object sitting in a free list (end of run, and periodically).
+//go:norace
 func (ps *PoolSet) CheckFree() {
 	ps.mu.Lock()
 	defer ps.mu.Unlock()
@@ -214,7 +246,7 @@ func (ps *PoolSet) CheckFree() {
 				ps.Viol = append(ps.Viol, PoolViolation{Kind: "double-put", Pool: sp.Name, Site: "free-list", Detail: "object twice in the free list"})
 			}
 			seen[x] = true
-			oi := sp.objs[x]
+			oi := sp.objs.get(objKey(x))
 			if h := shallowHash(x); h != oi.hash {
 				ps.Viol = append(ps.Viol, PoolViolation{Kind: "write-after-release", Pool: sp.Name, Site: "end-of-run", PrevSite: oi.putSite, G: oi.putG,
 					Detail: "object changed after Put"})
@@ -240,9 +272,9 @@ func (ps *PoolSet) Stats(bytes bool) []PoolStat {
 	for _, sp := range ps.list {
 		st := PoolStat{Name: sp.Name, Live: sp.Live, HWM: sp.HWM, Gets: sp.Gets, Puts: sp.Puts, News: sp.News}
 		if bytes {
-			for x, oi := range sp.objs {
-				if !oi.free {
-					st.RetainedBytes += retained(x)
+			for i, k := range sp.objs.keys {
+				if k != 0 && !sp.objs.vals[i].free {
+					st.RetainedBytes += retained(sp.objs.objs[i])
 				}
 			}
 		}
@@ -254,6 +286,11 @@ func (ps *PoolSet) Stats(bytes bool) []PoolStat {
 // shallowHash hashes the object's own memory: scalars, nested structs and arrays by value, slice
 // headers, pointer identities. It never follows a pointer, so memory owned by somebody else is not part of it.
 func shallowHash(x any) uint64 {
+	if RaceEnabled {
+		// reading a pooled object's memory through reflect would itself be reported against the next owner's writes;
+		// in race builds a write after release shows up as a data race with the next owner instead
+		return 0
+	}
 	v := reflect.ValueOf(x)
 	if v.Kind() != reflect.Pointer || v.IsNil() {
 		return 0
